@@ -528,7 +528,7 @@ theorem ser_aggregate_pointwise_every_level (S : StrFns) (c : Cls) (ov : Option 
 theorem region_desL (S : StrFns) (c : Cls) (ov : Option MDict) (camel : Bool)
     (h : regionOK S c ov camel = true) : c.desL = c.own := by
   simp only [regionOK, and_true_iff'] at h
-  have := h.1.1.1.1.1
+  have := h.1.1.1.1
   unfold Cls.desL
   cases hd : c.des with
   | none => rfl
@@ -540,21 +540,25 @@ theorem deser_aggregate_shape (S : StrFns) (c : Cls) (ov : Option MDict) (camel 
     aggregate S false c.desL c.fields ov camel = shapeFields S (effList c.own ov camel) c.fields := by
   rw [region_desL S c ov camel h]
   simp only [regionOK, and_true_iff'] at h
-  exact c07_foldAdd_base S c.fields _ h.1.1.1.2 h.1.1.2
+  exact c07_foldAdd_base S c.fields _ h.1.1.2
 
 /-- `_convert_to_camelcase` is idempotent on the driver's ASCII strings (its result has no underscore) -/
 theorem camel_idempotent_ascii (s : String) : asciiFns.camel (asciiFns.camel s) = asciiFns.camel s :=
   c07_camelAscii_idem s
 
 /-- **`Sync` is a theorem inside the region.**  `regionOK` is a decidable predicate on the class tree,
-    its mapper lists and the `camel_case_convert` flag alone: plain mappers (enum mappers, dicts of
-    string / `DoNotSerialize` values without `"<field>._mapper"` entries) on the top class and on the
-    classes nested directly in it, no own mapper on classes nested deeper, every nested field mapped
-    to a string key under which its re-keyed nested entry is found, and no two re-keyed nested entries
-    colliding in any round.  There the level hypotheses `levelOK` (with `Sync`) follow at *every* depth
-    from the demanded domain.  With `camel_case_convert` the deserializer applies `TO_CAMELCASE` once
-    more at every level; this is harmless because the conversion is idempotent (`hc`, proved for the
-    ASCII functions in `camel_idempotent_ascii`). -/
+    its mapper lists and the `camel_case_convert` flag alone.  It asks, for the top class and every
+    nested class at any depth: (1) in every aggregation round no two entries collide (nested entries
+    are re-keyed by the mapped name) and every nested entry is stepped by the deserializer with the
+    sub-mapper the serializer uses (`prefixOK`: always so for enum mappers and dicts without
+    `"<field>._mapper"` entries; for an explicit nested entry it means the entry is keyed by the name
+    the field has at that round and is not dict-equal to the current nested aggregate); (2) every nested
+    field is mapped to a string key under which its re-keyed nested entry is found (`trackOK`); (3) a
+    class two or more levels down has no own mapper, or nothing from above reaches it (`reaggOK`);
+    (4) no `_deserialization_mapper`.  There the level hypotheses `levelOK` (with `Sync`) follow at
+    *every* depth from the demanded domain.  With `camel_case_convert` the deserializer applies
+    `TO_CAMELCASE` once more at every level; this is harmless because the conversion is idempotent
+    (`hc`, proved for the ASCII functions in `camel_idempotent_ascii`). -/
 theorem sync_in_region (S : StrFns) (c : Cls) (ov : Option MDict) (camel ku strict : Bool) (x : J)
     (hc : camel = true → ∀ s, S.camel (S.camel s) = S.camel s)
     (hreg : regionOK S c ov camel = true)
@@ -563,14 +567,14 @@ theorem sync_in_region (S : StrFns) (c : Cls) (ov : Option MDict) (camel ku stri
   have hM := deser_aggregate_shape S c ov camel hreg
   have hdl := region_desL S c ov camel hreg
   simp only [regionOK, and_true_iff'] at hreg
-  obtain ⟨⟨⟨⟨⟨_, hw⟩, hplain⟩, _⟩, hnod⟩, hnested⟩ := hreg
+  obtain ⟨⟨⟨⟨_, hw⟩, _⟩, hnod⟩, hnested⟩ := hreg
   cases x with
   | obj kvs =>
     simp only [rtClsK, and_true_iff'] at h ⊢
     refine ⟨⟨c07_level_of_lookups S _ _ strict kvs h.1.1
       (fun p _ => by rw [hdl]; exact (ser_deser_same_field_keys S c.own c.fields ov camel p.1).symm), h.1.2⟩, ?_⟩
     rw [hM] at h ⊢
-    exact c07_sync_fields S camel hc c.fields c.fields _ _ _ _ kvs (c07_camelRel_top camel c.own ov) hplain hnod
+    exact c07_sync_fields S camel hc c.fields c.fields _ _ _ _ kvs (c07_camelRel_top camel c.own ov) hnod
       (c07_aggregate_agrees S c.own c.fields ov camel hw) (fun g hg => hg) hnested h.2
   | null => simp [rtClsK] at h
   | int i => simp [rtClsK] at h
@@ -871,6 +875,16 @@ theorem mro_collection_example :
     ∧ (cinfoOf diamond "D").des.isNone = true
     ∧ (cinfoOf (chainGraph 0 [some (.single .lower), none, some (.many [.camel, .dict []])]) "c2").ser.map mTag
         = (collect none [some (.single .lower), none, some (.many [.camel, .dict []])]).map mTag := by
+  decide
+
+/-- non-vacuity of the region with an explicit `"<field>._mapper"` entry: the class of `round_trip_example`
+    (a dict with the nested entry `"n._mapper": {"p": "q"}`, then TO_LOWERCASE; the nested class renames
+    `p` itself) is inside the region, with `camel_case_convert` off and on, and its instance inside the
+    demanded domain — so `mapper_round_trip_region` applies without any `Sync` hypothesis -/
+theorem region_nested_entry_example :
+    regionOK upFns rtCls2 none false = true ∧ regionOK upFns rtCls2 none true = true
+    ∧ rtCls upFns false (levelDomE upFns) rtCls2 (aggregate upFns true rtCls2.own rtCls2.fields none false)
+        none false rtInst2 = true := by
   decide
 
 end Typedpy.C07
